@@ -16,7 +16,7 @@ Proof. intros H. unfold find_start. rewrite (no_marker_probe f 0 H). reflexivity
 Lemma find_metadata_none real f : has_marker f = false -> find_metadata real f = FNone.
 Proof.
   intros H. pose proof (find_start_none f H) as Hs. unfold find_metadata. cbv zeta.
-  destruct (rseek real (zlen f) (-32)) as [p0|]; [|reflexivity].
+  destruct (if zlen f <? 32 then None else Some (zlen f - 32)) as [p0|]; [|reflexivity].
   rewrite (no_marker_probe f p0 H).
   destruct (zlen f <? 128); [exact Hs|].
   destruct (negb _); [exact Hs|].
@@ -91,6 +91,9 @@ Qed.
 Lemma rseek_ok real pos off : 0 <= pos + off -> rseek real pos off = Some (pos + off).
 Proof. intros. unfold rseek. destruct (pos + off <? 0) eqn:E; [lia|reflexivity]. Qed.
 
+Lemma first_seek_ok n : 32 <= n -> (if n <? 32 then None else Some (n - 32)) = Some (n - 32).
+Proof. intros H. destruct (n <? 32) eqn:E; [lia|reflexivity]. Qed.
+
 Lemma strict_end_inv f e : strict_end f = Some e ->
   32 <= e <= zlen f /\ is_marker f (e - 32) = true /\ forall real, find_metadata real f = FFooter (e - 32).
 Proof.
@@ -98,7 +101,7 @@ Proof.
   destruct ((32 <=? n) && is_marker f (n - 32)) eqn:C1.
   { injection H as <-. apply andb_true_iff in C1 as [C1a C1b].
     split; [lia|]. split; [exact C1b|]. intros real. unfold find_metadata. cbv zeta. fold n.
-    rewrite rseek_ok by lia. replace (n + -32) with (n - 32) by lia. rewrite C1b. reflexivity. }
+    rewrite first_seek_ok by lia. rewrite C1b. reflexivity. }
   destruct ((160 <=? n) && list_eqb (rd f (n - 128) 3) TAG3) eqn:C2; [|discriminate].
   apply andb_true_iff in C2 as [C2a C2b].
   assert (M0 : is_marker f (n - 32) = false).
@@ -106,7 +109,7 @@ Proof.
   destruct (is_marker f (n - 160)) eqn:C3.
   { injection H as <-. split; [lia|]. replace (n - 128 - 32) with (n - 160) by lia. split; [exact C3|].
     intros real. unfold find_metadata. cbv zeta. fold n.
-    rewrite rseek_ok by lia. replace (n + -32) with (n - 32) by lia. rewrite M0.
+    rewrite first_seek_ok by lia. rewrite M0.
     destruct (n <? 128) eqn:E; [lia|]. rewrite C2b. cbn [negb].
     rewrite rseek_ok by lia. replace (n - 125 + -35) with (n - 160) by lia.
     change (list_eqb (rd f (n - 160) 8) APETAGEX) with (is_marker f (n - 160)). rewrite C3. reflexivity. }
@@ -120,7 +123,7 @@ Proof.
   assert (Hoff : 0 <= off) by (unfold off; apply dec_val_nonneg; [lia | exact C4b]).
   split; [lia|]. split; [exact C5b|].
   intros real. unfold find_metadata. cbv zeta. fold n.
-  rewrite rseek_ok by lia. replace (n + -32) with (n - 32) by lia. rewrite M0.
+  rewrite first_seek_ok by lia. rewrite M0.
   destruct (n <? 128) eqn:E; [lia|]. rewrite C2b. cbn [negb].
   rewrite rseek_ok by lia. replace (n - 125 + -35) with (n - 160) by lia.
   change (list_eqb (rd f (n - 160) 8) APETAGEX) with (is_marker f (n - 160)). rewrite C3.
